@@ -42,6 +42,16 @@ def gen(rng, scenario, tier):
         if rng.random() < 0.4:
             for _ in range(rng.randint(1, 3)):
                 bs[i][rng.randrange(len(bs[i]))] = list(rng.choice(bs[i - 1]))
+    # re-submitted rows: the next batch holds the same new rows as the previous one (other order / multiplicities) plus rows
+    # of the reference - the de-duplicated union is the same point set, the membership vectors are not
+    for i in range(2, len(bs)):
+        if rng.random() < 0.25:
+            prev = bs[i - 1]
+            nb = [list(r) for r in prev]
+            rng.shuffle(nb)
+            nb += [list(rng.choice(prev)) for _ in range(rng.randint(0, 3))]
+            nb += [list(rng.choice(bs[0])) for _ in range(rng.randint(1, 4))]
+            bs[i] = nb
     return {"cfg": cfg, "events": [[b, np_seed(rng)] for b in bs], "drift_positions": drifts}
 
 
